@@ -298,6 +298,16 @@ func (c *Ctx) specCall(name string, e *ast.CallExpr) (Value, bool) {
 		return v.Elems[0], true
 	case "tzero":
 		return Scalar(timeZero(), nil), true
+	case "sameelems":
+		// sameelems(a, b): equal lengths and equal elements below the length (what lies beyond is not compared)
+		a := c.eval(e.Args[0])
+		b := c.eval(e.Args[1])
+		if a.Kind != KSlice || b.Kind != KSlice {
+			panic(engineErr("sameelems: slices expected"))
+		}
+		bvarSeq++
+		i := BVar(fmt.Sprintf("i!se%d", bvarSeq), SInt)
+		return Scalar(And(Eq(a.Len, b.Len), Forall([]*Term{i}, Implies(And(Le(IntLit(0), i), Lt(i, a.Len)), Eq(Select(a.Arr, i), Select(b.Arr, i))))), boolT), true
 	case "sametable":
 		// sametable(a, b): slices equal element-wise including length
 		a := c.eval(e.Args[0])
